@@ -89,6 +89,31 @@ def generate(rng, tier):
             k = rng.randrange(6, len(g))
             g[k] ^= 1 << rng.randrange(8)
             out.append((f"load2 {kind} {hx(g)}", True))
+    # files whose checksum contains a 00 byte (at file offset 6, 7 or 8): every alteration of the other checksum bytes and of
+    # the data must still be reported (a comparison that stops at a zero byte would not notice)
+    made = 0
+    tries = 0
+    while made < (12 if thorough else 4) and tries < 200000:
+        tries += 1
+        body = rand_bytes(rng, rng.choice([23, 40, 250]))
+        tf = bytearray(b"skyb\x02\x01\x00\x00\x00\x00" + bytes([3, len(body) & 255, len(body) >> 8]) + body)
+        c = ap_crc32(tf)
+        zpos = [i for i in range(3) if (c >> (8 * i)) & 255 == 0]
+        if not zpos:
+            continue
+        made += 1
+        tf[6:10] = c.to_bytes(4, "little")
+        out.append((f"facc m {hx(tf)}", True))
+        out.append((f"facc f {hx(tf)}", True))
+        for k in range(6, 10):
+            for bit in (0, 3, 7):
+                g = bytearray(tf)
+                g[k] ^= 1 << bit
+                out.append((f"fcorr {rng.choice('mf')} {hx(g)}", True))
+        for k in (10, 13, len(tf) - 1):
+            g = bytearray(tf)
+            g[k] ^= 0x40
+            out.append((f"fcorr {rng.choice('mf')} {hx(g)}", True))
     # tiny checksummed files (header only, or a header and a few bytes): a loader that looks at the size before the
     # checksum must still report the corruption
     for n in range(10, 19):
